@@ -13,7 +13,8 @@ import c09_util as U
 PID = "C09"
 NAMESPACE = "Simu.C09"
 THEOREMS = [
-    "daughters_closed", "daughters_closed_of_glue", "daughters_inv", "daughters_volume", "daughters_shape",
+    "daughters_closed", "daughters_closed_of_glue", "daughters_inv", "daughters_volume", "computed_volume_is_signed_volume",
+    "daughters_volume_computed", "daughters_shape",
     "add_point_he", "add_point_pair_closed", "add_point_nodes", "divide5_he", "divide_faces_preserves_surface",
     "divide_faces_nodes", "cut_volume_caseA", "cut_volume_caseB", "side_partition", "target_halved", "type_preserved",
     "ids_fresh", "ids_fresh_round", "counter_advance", "quat_matrix_orthogonal", "quat_matrix_orthogonal_cols",
@@ -175,7 +176,9 @@ class Runner:
                 d = [i for i in range(min(len(x["faces"]), len(y["faces"]))) if x["faces"][i] != y["faces"][i]][:1]
                 return "daughter %d: face lists differ at %s: impl=%s model=%s" % (k + 1, d, [x["faces"][i] for i in d], [y["faces"][i] for i in d])
             v = unhex(x["kv"]["vol"]); v6 = unhex(y["kv"]["vol6"])
-            if y["kv"].get("reoriented") != "true" and not vlib.close(v, v6 / 6.0, 64, 1e-9 * abs(v)):
+            if y["kv"].get("reoriented") != "true" and v != 0:
+                self.stats["volume_model_vs_impl_worst_rel"] = max(self.stats.get("volume_model_vs_impl_worst_rel", 0.0), abs(v - v6 / 6.0) / abs(v))
+            if y["kv"].get("reoriented") != "true" and not vlib.close(v, v6 / 6.0, 64, 1e-12 * abs(v)):   # measured 4.5e-16 (different order of the six products); was 1e-9 while the sums were un-centred
                 return "daughter %d: volume impl=%r model=%r" % (k + 1, v, v6 / 6.0)
         self.bit_identical += 1
         return True
